@@ -787,7 +787,11 @@ def signatures(inc: e3.BuildResult, scr: e3.BuildResult, diffs: list, case: dict
     # re-attached by a full recycle of its declaring (sub-)plan after the startup rescan, which
     # only looks at attached files.
     STATIC = ("MISSING", "CONFIRMED")
-    stale_static = {d["key"] for d in diffs if id(d) not in explained and d["key"].startswith("file:") and (
+    # (its own cause only: the file node sat DETACHED at the end of an earlier build of the history;
+    # a stale digest of a file that was attached all along is something else, e.g. a rescan that
+    # does not notice a replaced file)
+    stale_static = {d["key"] for d in diffs if id(d) not in explained and d["key"].startswith("file:")
+                    and d["key"] in detached_before and (
         (d["kind"] == "file-state" and d["a"] in STATIC and d["b"] in STATIC) or d["kind"] == "static-digest")}
     if stale_static:
         cone = _downstream(va, stale_static) | _downstream(vb, stale_static)
